@@ -420,7 +420,7 @@ def check_pack(ctx, res: Result, prop_id: str):
             if imp[0] == "symbol" and imp[1] in ctx.prog.modules and imp[1].split(".")[-1].startswith("_") and ctx.prog.modules[imp[1]] not in mods:
                 mods.append(ctx.prog.modules[imp[1]])
     fis = [fi for fi in ctx.prog.functions.values() if fi.module in mods]
-    lints = (("G-STALE", check_stale_in_loop), ("G-REUSE", check_iterator_reuse), ("N-FANCYAUG", check_fancy_augassign), ("G-GROUPBY", check_groupby_sorted), ("E-SHARED", check_shared_literals), ("G-LIVEITER", check_mutation_while_iterating), ("E-DEFAULTARG", check_mutable_defaults))
+    lints = (("G-STALE", check_stale_in_loop), ("G-REUSE", check_iterator_reuse), ("N-FANCYAUG", check_fancy_augassign), ("G-GROUPBY", check_groupby_sorted), ("E-SHARED", check_shared_literals), ("G-LIVEITER", check_mutation_while_iterating), ("E-DEFAULTARG", check_mutable_defaults), ("G-KEYPROJ", check_key_projection), ("K-OWNER", check_id_owner), ("G-COUNTERADD", check_counter_arith))
     seen_keys = {(o.rule, o.func, o.stmt) for o in res.obs}
     for rule, fn in lints:
         n_f = n_v = 0
@@ -511,3 +511,198 @@ def check_mutable_defaults(ctx, res: Result, dotted, rule="E-DEFAULTARG"):
             res.violation(rule, fi.short, norm(uses[0])[:100], pname, f"the default of `{pname}` is a mutable literal and the function mutates / stores it: every call that relies on the default shares (and grows) the same object", loc(fi, uses[0]))
     if not found:
         res.ok(rule, fi.short, "no mutable default argument is mutated or stored", "scan", loc(fi, fi.node))
+
+
+def check_key_projection(ctx, res: Result, dotted, rule="G-KEYPROJ"):
+    """A loop over (time, hyperedge) / (hyperedge, layer) records that ASSIGNS (does not accumulate) a weight into a local
+    table whose key keeps the hyperedge but drops the time / layer (or keeps it only through `//`, `%`, a comparison): two
+    records that differ only in the dropped component land on the same key and the later weight replaces the earlier one.
+    The containers merge such repeats by SUMMING the weights (add_edge); a bucket table that overwrites loses weight."""
+    from .kinds import Atom, Seq, Tup, elem_of
+
+    v = ctx.view(dotted)
+    fi = v.fi
+    f = fi.short
+    res.rules.setdefault(rule, "records that are merged after their time / layer component is dropped have their weights summed (fed to add_edge one by one), never overwritten in a table keyed by the remaining components")
+    n = 0
+    for lp in walk_no_nested(fi.node):
+        if not (isinstance(lp, ast.For) and isinstance(lp.target, (ast.Tuple, ast.List)) and all(isinstance(e, ast.Name) for e in lp.target.elts)):
+            continue
+        try:
+            k = elem_of(v.kind(lp.iter))
+        except Exception:
+            continue
+        if not (isinstance(k, Tup) and len(k.items) == len(lp.target.elts)):
+            continue
+        dropped = [e.id for e, i in zip(lp.target.elts, k.items) if isinstance(i, Atom) and i.name in ("TIME", "LAYER")]
+        kept = [e.id for e, i in zip(lp.target.elts, k.items) if isinstance(i, Seq)]
+        if not dropped or not kept:
+            continue
+        for st in [y for s in lp.body for y in ast.walk(s)]:
+            if not (isinstance(st, ast.Assign) and len(st.targets) == 1 and isinstance(st.targets[0], ast.Subscript)):
+                continue
+            if v.enclosing(st, (ast.For, ast.While)) is not lp:
+                continue
+            slices, base = [], st.targets[0]
+            while isinstance(base, ast.Subscript):
+                slices.append(base.slice)
+                base = base.value
+            if not isinstance(base, ast.Name) or base.id in {a.arg for a in fi.params}:
+                continue  # only local bucket tables (a table of self / a parameter has its own rules)
+            names = lambda e: {x.id for x in ast.walk(e) if isinstance(x, ast.Name)}
+            if not any(names(s) & set(kept) for s in slices):
+                continue
+
+            def injective_use(s, d):
+                """`d` occurs in the slice as itself (a bare name or an element of a tuple display), not only under arithmetic"""
+                if isinstance(s, ast.Name):
+                    return s.id == d
+                if isinstance(s, ast.Tuple):
+                    return any(injective_use(e, d) for e in s.elts)
+                return False
+
+            lost = [d for d in dropped if not any(injective_use(s, d) for s in slices)]
+            if not lost:
+                continue
+            val = v.inline(st.value, depth=2)
+            if base.id in names(val):
+                continue  # `t[k] = t.get(k, 0) + w`: an accumulation
+            carries_weight = False
+            for x in ast.walk(val):
+                if isinstance(x, (ast.Call, ast.Subscript)):
+                    try:
+                        kk = v.kind(getattr(x, "_orig", x))
+                    except Exception:
+                        continue
+                    if isinstance(kk, Atom) and kk.name == "WEIGHT":
+                        carries_weight = True
+            if not carries_weight:
+                continue
+            n += 1
+            res.violation(rule, f, norm(st)[:100], ",".join(lost), f"records (… {', '.join(kept)} …) are bucketed under a key that drops `{lost[0]}`; the weight is assigned, not added: of several records of one node set that fall into the same bucket only the last weight survives (add_edge would have summed them)", loc(fi, st))
+    if n == 0:
+        res.ok(rule, f, "no overwriting bucket table keyed by a projection of the record key", "scan", loc(fi, fi.node))
+
+
+def check_id_owner(ctx, res: Result, dotted, rule="K-OWNER"):
+    """Hyperedge ids are private to one container object: `A._weights[B._edge_list[key]]` (an id-keyed table of one object
+    indexed by the id that ANOTHER object assigned to the key) reads / writes the record of an unrelated hyperedge."""
+    from . import tables as T
+
+    v = ctx.view(dotted)
+    fi = v.fi
+    f = fi.short
+    res.rules.setdefault(rule, "an id-keyed table (_weights, _edge_metadata, _reverse_edge_list, incidence lists) of one object is indexed only by ids of the same object's edge index")
+    n = 0
+
+    def root(e):
+        return e.value if isinstance(e, ast.Attribute) and isinstance(e.value, ast.Name) else None
+
+    def same_object(a: ast.Name, b: ast.Name):
+        if a.id == b.id:
+            return True
+        for x, y in ((a, b), (b, a)):
+            r = v.resolve(x)
+            if isinstance(r, ast.Name) and r.id == y.id:
+                return True
+        # either name assigned more than once / from something that may be the other object: not decided
+        params = {p.arg for p in fi.params}
+
+        def fresh(x):
+            # a freshly constructed object (`h = Hypergraph(...)`, every definition of the name) is no object that existed before
+            defs = [s for s in walk_no_nested(fi.node) if isinstance(s, ast.Assign) and any(isinstance(t, ast.Name) and t.id == x.id for t in s.targets)]
+            stores = [s for s in ast.walk(fi.node) if isinstance(s, ast.Name) and isinstance(s.ctx, ast.Store) and s.id == x.id]
+            return bool(defs) and len(stores) == len(defs) and x.id not in params and all(isinstance(d.value, ast.Call) and isinstance(d.value.func, ast.Name) and d.value.func.id[:1].isupper() for d in defs)
+
+        fa, fb = fresh(a), fresh(b)
+        if fa and fb:
+            return False
+        # one fresh object against `self` / a parameter: different objects; anything else (two parameters, loop variables,
+        # re-assigned locals) may alias
+        return not ((fa and b.id in params) or (fb and a.id in params))
+
+    for sub in walk_no_nested(fi.node):
+        if not (isinstance(sub, ast.Subscript) and isinstance(sub.value, ast.Attribute) and sub.value.attr in T.EDGE_ID_TABLES):
+            continue
+        a = root(sub.value)
+        if a is None:
+            continue
+        idx = sub.slice
+        if isinstance(idx, ast.Name):
+            idx = v.inline(idx, depth=1)
+        if isinstance(idx, ast.Subscript) and isinstance(idx.value, ast.Attribute) and idx.value.attr == T.EDGE_KEY_TABLE:
+            b = root(idx.value)
+            if b is None or same_object(a, b):
+                continue
+            n += 1
+            res.violation(rule, f, norm(sub)[:100], f"{a.id}/{b.id}", f"`{a.id}.{sub.value.attr}` is indexed by the id that `{b.id}` assigned to the hyperedge: ids are per object, the record of a different hyperedge of `{a.id}` is addressed (or a KeyError is raised)", loc(fi, sub))
+    if n == 0:
+        res.ok(rule, f, "no id-keyed table indexed through another object's edge index", "scan", loc(fi, fi.node))
+
+
+def check_counter_arith(ctx, res: Result, dotted, rule="G-COUNTERADD"):
+    """collections.Counter arithmetic (`+`, `+=`, `-`, `-=`, `|`, `&`) keeps only STRICTLY POSITIVE totals: used to accumulate a
+    mapping of scores (values taken from another mapping, not occurrence counts) it silently drops every key whose total is 0 or
+    negative.  Counter.update() / an explicit loop keep them."""
+    v = ctx.view(dotted)
+    fi = v.fi
+    f = fi.short
+    res.rules.setdefault(rule, "score mappings are not accumulated with Counter arithmetic (`+=` on Counters drops keys whose total is not strictly positive); Counter.update or an explicit loop is used")
+    n = 0
+
+    def is_counter_ctor(e):
+        return isinstance(e, ast.Call) and ((isinstance(e.func, ast.Name) and e.func.id == "Counter") or (isinstance(e.func, ast.Attribute) and e.func.attr == "Counter"))
+
+    def from_mapping(e):
+        """Counter(<mapping with arbitrary values>)"""
+        if not is_counter_ctor(e) or len(e.args) != 1:
+            return False
+        a = e.args[0]
+        if isinstance(a, ast.Name):
+            a = v.inline(a, depth=1)
+        if isinstance(a, ast.DictComp):
+            return not (isinstance(a.value, ast.Constant) and isinstance(a.value.value, (int, float)) and a.value.value > 0)
+        if isinstance(a, ast.Dict):
+            return not all(isinstance(x, ast.Constant) and isinstance(x.value, (int, float)) and x.value > 0 for x in a.values)
+        if isinstance(a, ast.Call) and isinstance(a.func, ast.Name) and a.func.id == "dict":
+            return True
+        return False
+
+    for st in walk_no_nested(fi.node):
+        ops = []
+        if isinstance(st, ast.AugAssign) and isinstance(st.op, (ast.Add, ast.Sub, ast.BitOr, ast.BitAnd)):
+            ops = [(st.target, st.value, st)]
+        elif isinstance(st, ast.BinOp) and isinstance(st.op, (ast.Add, ast.Sub, ast.BitOr, ast.BitAnd)):
+            ops = [(st.left, st.right, st)]
+        for left, right, node in ops:
+            sides = [left, right]
+            resolved = [v.inline(x, depth=1) if isinstance(x, ast.Name) and isinstance(x.ctx, ast.Load) else x for x in sides]
+            for i_, x in enumerate(sides):
+                if isinstance(x, ast.Name) and not is_counter_ctor(resolved[i_]):
+                    ds = [a for a in walk_no_nested(fi.node) if isinstance(a, ast.Assign) and len(a.targets) == 1 and isinstance(a.targets[0], ast.Name) and a.targets[0].id == x.id]
+                    if ds and all(is_counter_ctor(a.value) for a in ds):
+                        resolved[i_] = ds[0].value
+            if any(from_mapping(x) for x in resolved) and all(is_counter_ctor(x) for x in resolved):
+                # values known to be strictly positive: closeness in a bipartite projection (every vertex of it has a neighbour;
+                # snapshots hold no isolated nodes) - the construct then loses nothing
+                srcs = set()
+                for x in resolved:
+                    for y in ast.walk(x):
+                        if isinstance(y, ast.Name) and isinstance(y.ctx, ast.Load):
+                            for a in walk_no_nested(fi.node):
+                                if isinstance(a, ast.Assign) and any(isinstance(t_, ast.Name) and t_.id == y.id for tg in a.targets for t_ in ast.walk(tg)):
+                                    for z in ast.walk(a.value):
+                                        if isinstance(z, ast.Call):
+                                            srcs.add(norm(z.func).split(".")[-1])
+                                        if isinstance(z, ast.Name):
+                                            for b in walk_no_nested(fi.node):
+                                                if isinstance(b, ast.Assign) and any(isinstance(t_, ast.Name) and t_.id == z.id for tg in b.targets for t_ in ast.walk(tg)):
+                                                    srcs |= {norm(w.func).split(".")[-1] for w in ast.walk(b.value) if isinstance(w, ast.Call)}
+                if "closeness_centrality" in srcs and "bipartite_projection" in srcs and "line_graph" not in srcs:
+                    res.unknown(rule, f, norm(node)[:100], "drops-nonpositive", "Counter arithmetic drops non-positive totals; the scores accumulated here are closeness values in a bipartite projection, which are positive", loc(fi, node))
+                    n += 1
+                    continue
+                n += 1
+                res.violation(rule, f, norm(node)[:100], "drops-nonpositive", "Counter `+` / `+=` keeps only keys whose total is strictly positive: a key whose accumulated score is 0 (a hyperedge isolated in every snapshot has closeness 0) disappears from the result instead of being reported with value 0", loc(fi, node))
+    if n == 0:
+        res.ok(rule, f, "no Counter arithmetic on score mappings", "scan", loc(fi, fi.node))
